@@ -92,9 +92,13 @@ func c41Mk(k c41Kind, id int) []byte {
 		return b
 	case "v6-shorter-than-header":
 		return v6(40)[:39]
-	case "v6-length-field-mismatch":
+	case "v6-length-field-too-big":
 		b := v6(60)
 		binary.BigEndian.PutUint16(b[4:], 21)
+		return b
+	case "v6-length-field-too-small":
+		b := v6(60)
+		binary.BigEndian.PutUint16(b[4:], 19)
 		return b
 	}
 	panic("c41: unknown kind " + k.name)
@@ -140,7 +144,7 @@ func c41Kinds(f int) (all, reduced, tiny []c41Kind) {
 	}
 	add(4, big)
 	for _, iv := range []string{"empty", "version5", "v4-shorter-than-header", "v4-length-field-too-small",
-		"v4-length-field-too-big", "v6-shorter-than-header", "v6-length-field-mismatch"} {
+		"v4-length-field-too-big", "v6-shorter-than-header", "v6-length-field-too-big", "v6-length-field-too-small"} {
 		all = append(all, c41Kind{name: "invalid/" + iv, inval: iv})
 	}
 	pick := func(names ...string) (out []c41Kind) {
@@ -223,6 +227,8 @@ type c41Env struct {
 	outExact, outInvalidSkipped, faultDelivered, faultLost   atomic.Int64
 	faultDupEmitted, multiFrame, sharedFrame, streamsChecked atomic.Int64
 	closeEarlyExact                                          atomic.Int64
+	panics                                                   atomic.Int64
+	abort                                                    atomic.Bool
 }
 
 type c41Result struct {
@@ -308,11 +314,21 @@ func (e *c41Env) encode(slot *c41ReadCall, f int, stream uint32, bursts [][][]by
 func (e *c41Env) deliver(frames [][]byte, order []int) [][]byte {
 	tun := &c41Tun{}
 	w := dataplane.VerifNewWorker(e.addr, 7, tun)
+	// frames come from a global pool of 1024 buffers: give them back even if the code under test panics
+	defer w.ReleaseFrames()
+	defer func() {
+		if p := recover(); p != nil {
+			// the frame being processed is lost to the pool; stop the exploration well before the pool runs dry
+			if e.panics.Add(1) > 100 {
+				e.abort.Store(true)
+			}
+			panic(p)
+		}
+	}()
 	ctx := context.Background()
 	for _, i := range order {
 		w.ProcessFrame(ctx, frames[i])
 	}
-	w.ReleaseFrames()
 	e.deliveries.Add(1)
 	e.frameOps.Add(int64(len(order)))
 	return tun.out
@@ -405,6 +421,9 @@ func c41ApplyFault(order []int, kind, i int) []int {
 }
 
 func (e *c41Env) runCase(slot *c41ReadCall, c c41Case, faultBound int) {
+	if e.abort.Load() {
+		return
+	}
 	var pkts [][]byte
 	for i, k := range c.kinds {
 		pkts = append(pkts, c41Mk(k, i+1))
@@ -512,6 +531,9 @@ func (e *c41Env) runCase(slot *c41ReadCall, c c41Case, faultBound int) {
 	e.closeEarlyExact.Add(1)
 	// ---- faults: every emitted packet is byte-identical to a sent one ----
 	check := func(order []int, name string) {
+		if e.abort.Load() {
+			return
+		}
 		var out [][]byte
 		if p := mc.Safely(func() { out = e.deliver(frames, order) }); p != nil {
 			e.r.Violation("faults:panic:"+c.shape(), map[string]any{"case": c.String(), "delivery": name, "panic": fmt.Sprint(p)})
@@ -597,7 +619,7 @@ func TestC41(t *testing.T) {
 		[]plan{{1, 0, 2}, {2, 0, 1}, {3, 1, 1}},
 		[]plan{{1, 0, 2}, {2, 0, 2}, {3, 0, 1}, {4, 1, 1}, {5, 2, 1}})
 	r.Rule = fmt.Sprintf("frame sizes %v x packet sequences (plans %v = {length, alphabet 0:all sizes {20,21,39,40,41,P-1,P,P+1,2P,2f,3P+5,"+
-		"10P+3|9000} v4/v6 + 7 invalid kinds; 1: 8 kinds; 2: 4 kinds, fault bound}) x every composition of the sequence into write "+
+		"10P+3|9000} v4/v6 + 8 invalid kinds; 1: 8 kinds; 2: 4 kinds, fault bound}) x every composition of the sequence into write "+
 		"bursts (and, in order only, with the encoder closed before the last burst is drained) x delivery: in order, and every 1 (bound 2: every 2, for <=10 frames) of {loss, duplicate, late duplicate, adjacent "+
 		"swap} at every frame position; P = frame size - 16; a case = (frame size, sequence, bursts); non-trivial = at least one "+
 		"valid packet", frameSizes, plans)
@@ -646,8 +668,12 @@ func TestC41(t *testing.T) {
 	if stop.Load() {
 		r.Capped(capNote)
 	}
-	c41ManyFrames(e)
-	c41Streams(e)
+	if e.abort.Load() {
+		r.Capped("exploration aborted after more than 100 panics in the code under test (each leaks a pooled frame buffer)")
+	} else {
+		c41ManyFrames(e)
+		c41Streams(e)
+	}
 
 	r.Extra["encodings"] = e.encodings.Load()
 	r.Extra["deliveries_to_fresh_worker"] = e.deliveries.Load()
